@@ -48,9 +48,16 @@ func (s *scEnds) Configure(w *World) {
 		c.YieldSites = map[string]bool{"stream.wait.close-token": true, "stream.wait.end-token": true}
 	}
 	s.maxEnds = 2 + t.Draw(3*c.NVb, nil)
+	if t.Draw(3, nil) == 0 {
+		// filtered collection: snapshot tails are closed by seqno-advanced, whose offset is what a re-open starts from
+		c.ScopeName, c.CollectionNames, c.Collections = "s1", []string{"c1"}, []uint32{8, 8, 9}
+	}
 	c.QuiesceBudget = 40 * time.Second
 	c.AdvEventMax = 2 * time.Second
 	w.buildCluster()
+	w.cl.collections["s1.c1"] = 8
+	w.cl.collections["s1.c2"] = 9
+	c.Extra["coll:8"], c.Extra["coll:9"] = "c1", "c2"
 }
 
 func (s *scEnds) MayDrop(w *World, c *Conn) bool {
